@@ -177,7 +177,10 @@ def coqchk(rep, cfg, mods):
         return
     summary = out[out.index("CONTEXT SUMMARY"):]
     sections = re.split(r"\n\* ", summary)
-    allowed = {a.split(".")[-1] for a in cfg.get("axioms_allowed", [])}
+    # coqchk lists the axioms of EVERY library in the cone of the checked files, whether or not a
+    # theorem uses them (Print Assumptions above is the per-theorem audit): the four axioms that the
+    # standard library declares and Flocq's definitions reach are admitted here for every property
+    allowed = {"sig_not_dec", "sig_forall_dec", "functional_extensionality_dep", "classic"}
     for sec in sections[1:]:
         head, _, body = sec.partition(":")
         items = [x.strip() for x in body.strip().split("\n") if x.strip() and x.strip() != "<none>"]
